@@ -1147,12 +1147,10 @@ impl ProtocolState {
             decoded_packets: &mut decoded_packets
         };
 
+        // Packets that were completely received in front of a malformed one are handled like any others (a PUBLISH
+        // among them is surfaced, exactly as if it had arrived in a socket read of its own); the decode failure is
+        // reported after them.
         let decode_result = self.decoder.decode_bytes(data, &mut decode_context);
-        if decode_result.is_err() {
-            error!("[{} ms] handle_network_event_incoming_data - decode failure", self.elapsed_time_ms);
-            self.change_state(ProtocolStateType::Halted);
-            return decode_result;
-        }
 
         for mut packet in decoded_packets {
             if let MqttPacket::Publish(publish) = &mut(*packet) {
@@ -1183,6 +1181,12 @@ impl ProtocolState {
                 self.change_state(ProtocolStateType::Halted);
                 return handler_result;
             }
+        }
+
+        if decode_result.is_err() {
+            error!("[{} ms] handle_network_event_incoming_data - decode failure", self.elapsed_time_ms);
+            self.change_state(ProtocolStateType::Halted);
+            return decode_result;
         }
 
         Ok(())
